@@ -117,6 +117,9 @@ def check_ast(ast, acc, case):
             return
         if not A.compare(acc, case, 'pickle-tags', route + ': pickle tags', tags, P.p_c08(exp)):
             return
+    if after != before:
+        acc.violation('input-modified', case, 'Compiler.compile modified the tags of the document it was given',
+                      observed=[t['name'] for t in after.get('feature', {}).get('tags', [])], expected=[t['name'] for t in before.get('feature', {}).get('tags', [])])
 
 
 def run(ctx):
